@@ -191,6 +191,16 @@ def r_F22():
     return False
 
 
+def r_F23():
+    import prettyprinter as pp
+    d = {1e16: float('-inf'), 'e': None, (1, 2): 3, None: 4, b'b': 5}
+    outs, junk = set(), []
+    for i in range(25):
+        junk.append([object() for _ in range(i)])        # perturb the allocator between calls
+        outs.add(pp.pformat(d, sort_dict_keys=True, width=200))
+    return len(outs) > 1
+
+
 def r_F7():
     import enum
     import prettyprinter as pp
